@@ -988,7 +988,8 @@ func (u *Unit) execNext(st *State, x *ssa.Next) {
 	v.T = mc.vT
 	st.assume(u.typeFacts(v, mc.vT))
 	u.knownRef(st, v, mc.vT)
-	st.assume(implies(okT, and(sel(dom, k, SBool), not(sel(it.seen, k, SBool)))))
+	// a nil map has no keys
+	st.assume(implies(okT, and(sel(dom, k, SBool), not(sel(it.seen, k, SBool)), not(eq(it.mref, intLit(0))))))
 	st.assume(implies(not(okT), mk(fmt.Sprintf("(forall ((kk %s)) (! (=> (select %s kk) (select %s kk)) :pattern ((select %s kk))))", mc.ks, dom.S, it.seen.S, dom.S), SBool)))
 	it.seen = u.define(st, "seen", ite(okT, store(it.seen, k, tTrue), it.seen))
 	st.tuples[x] = []Term{okT, k, v}
